@@ -224,7 +224,7 @@ class Client(threading.Thread):
             conn.close()
 
 
-HOSTILE = ['', ' ', '\n', '<script>alert(1)</script>\n', '"</text><script>"\n', '# Legend:\na = {</style>}\n', '\x00\x01\x02', '{a}' * 50, '"' * 101,
+HOSTILE = ['\ufeff+--+\n|  |\n+--+\n', '\ufeff', '\ufeffab', ' \ufeff-->', '\u200b+-+', '\ufffe', '', ' ', '\n', '<script>alert(1)</script>\n', '"</text><script>"\n', '# Legend:\na = {</style>}\n', '\x00\x01\x02', '{a}' * 50, '"' * 101,
            '日本語 -> *\n', '\r\n\r\n', 'GET / HTTP/1.1\r\n\r\n', '-' * 20000, 'x' * 5000 + '\n+--+\n', '"' + 'q' * 9000 + '"\n', ' ' * 19999 + '|\n',
            '\n' * 20000, '# Legend:\n' + 'a = {b}\n' * 2000]
 
@@ -245,6 +245,8 @@ def make_plan(rng, ctx, circles, n, heavy):
             else:
                 kind, rows = gen.diagram(rng, circles, allow_quotes=True, allow_braces=True)
                 doc = gen.text_of(rows)
+                if rng.random() < 0.1:
+                    doc = rng.choice(['\ufeff', '\u200b', '\u00a0', '\r\n', '\t', '\x00']) + doc
             exp = ctx.conv(doc, entry=0)
             if not exp.ok:
                 continue
